@@ -158,7 +158,7 @@ def gen_case(rng, i, thorough=False):
     lim = 40 if nd == 2 else 16
     shape = []
     for r in radius:
-        extra = rng.choice([0, 0, 1, 2, 3, 5, 8, 12, 20])
+        extra = rng.choice([0, 1, 2, 3, 5, 8, 12, 12, 20, 20, 20, 30, 30])
         shape.append(min(max(2 * r + 1, lim), 2 * r + 1 + extra))
     dtype = rng.choice(["uint8", "uint8", "uint16", "int64", "float64"])
     vmax = {"uint8": 255, "uint16": 65535, "int64": rng.choice([255, 4000]),
@@ -173,6 +173,8 @@ def gen_case(rng, i, thorough=False):
     if rng.random() < 0.05:
         raw = list(img)
     thr = rng.choice(["0.6"] * 6 + ["0.5", "0.5", "0.75", "0.25", "1.0"])
+    if kind in ("palette", "spikes", "plateau") and rng.random() < 0.35:
+        thr = rng.choice(["0.5", "0.5", "0.25", "0.75"])   # exact ties are frequent and decidable
     max_iter = rng.choice([1, 2, 3, 10, 10]) if rng.random() > 0.03 else 0
     arr = np.array(img, dtype=np.int64).reshape(shape)
     mask = exact_mask(radius)
@@ -182,7 +184,7 @@ def gen_case(rng, i, thorough=False):
             c = []
             for r, s in zip(radius, shape):
                 lo, hi = r, s - 1 - r
-                c.append(rng.choice([lo, hi, rng.randint(lo, hi), rng.randint(lo, hi)]))
+                c.append(rng.choice([lo, hi] + [rng.randint(lo, hi) for _ in range(12)]))
             rect = tuple(slice(ci - r, ci + r + 1) for ci, r in zip(c, radius))
             if int((arr[rect] * mask).sum()) > 0:
                 starts.append(c)
@@ -199,7 +201,17 @@ def gen_case(rng, i, thorough=False):
 def gen_cases(ctx):
     for inp in ctx.corpus():
         yield inp
-    for i in range(ctx.n(520, 12000)):
+    if ctx.thorough:
+        # exhaustive family: every 0/1 image on 3x4, radius (1,1), both admissible starts,
+        # dyadic threshold (exact ties everywhere) and the default one
+        for bits in range(1, 2 ** 12):
+            img = [(bits >> k) & 1 for k in range(12)]
+            for thr in ("0.5", "0.6"):
+                yield dict(stream="refine", kind="exh3x4", family="exh3x4", shape=[3, 4],
+                           radius=[1, 1], dtype="uint8", thr=thr, max_iter=3, characterize=True,
+                           img=img, raw=img[::-1], starts=[[1, 1], [1, 2]], perturb=None,
+                           wrapper=None)
+    for i in range(ctx.n(1500, 40000)):
         inp = gen_case(ctx.rng("refine", i), i, ctx.thorough)
         if inp["starts"]:
             yield inp
@@ -393,6 +405,8 @@ def run_case(ctx, inp):
     kern = expected_kernel(nd, char, iso)
     res.stat("cases")
     res.stat("features", N)
+    if inp.get("family"):
+        res.stat("exhaustive_family")
     for k in ("ndim_%d" % nd, "iso" if iso else "aniso", "char_on" if char else "char_off",
               "kernel" + kern[len("_numba_refine"):], "dtype_" + inp["dtype"],
               "maxiter_%d" % inp["max_iter"], "thr_" + inp["thr"], "texture_" + str(inp.get("kind")),
@@ -479,6 +493,7 @@ def run_case(ctx, inp):
         if char and nd == 2:
             es = abs(float(rp[nd])) / max(1e-6, float(rp[nd]) - float(rp[nd + nsize + 2]) + 1e-6)
         bad = cmp_rows(rp, rn, nd, nsize, char, a_sq=False, b_sq=False, escale=es)
+        feat_pv = bool(bad)   # a concrete violation on this feature: no separate model report
         if bad:
             pv("engines-differ", "python and %s differ in %s for start %s" % (kern, bad, starts[f]),
                impl=dict(python=rp.tolist(), numba=rn.tolist()),
@@ -511,7 +526,7 @@ def run_case(ctx, inp):
         for eng, row in (("python", rp), (kern, rn)):
             bad = cmp_rows(row, mrow, nd, nsize, char, a_sq=False, b_sq=True,
                            escale=escale if escale else 1.0)
-            if bad and orc_ok:
+            if bad and orc_ok and not feat_pv:
                 cb("model-differs", "model differs from %s in %s for start %s" % (eng, bad, starts[f]),
                    "refineOne / lastCentre / measure", impl=row.tolist(),
                    model=dict(row=mrow, centre=rec["centre"], trace=rec["trace"]),
